@@ -48,11 +48,13 @@ impl PieceMoves {
     /// Check if it contains a given [`Move`].
     pub fn has(&self, mv: Move) -> bool {
         let has_promotion = mv.promotion.is_some();
+        let valid_promotion = !matches!(mv.promotion, Some(Piece::Pawn | Piece::King));
         let is_promotion = self.piece == Piece::Pawn &&
             matches!(mv.to.rank(), Rank::First | Rank::Eighth);
         self.from == mv.from
             && self.to.has(mv.to)
             && (has_promotion == is_promotion)
+            && valid_promotion
     }
 }
 
